@@ -30,9 +30,11 @@ rm -f /tmp/seed_demo_hold.go
 cd /verif
 git -C /repo apply "/verif/seeded/$NAME/patch.diff" || { echo "cannot apply to /repo"; exit 2; }
 for ID in "$@"; do
+  cp "evidence/$ID.json" "build/evidence.$ID.keep" 2>/dev/null
   echo "== /repo patched: ./check $ID"
   VERIF_SKIP_RACE=${VERIF_SKIP_RACE:-1} timeout 1500 ./check "$ID" 2>&1 | grep -v '^KNOWN' | grep -E '^VIOLATION|signature|detail|HARNESS|tier=' | head -6 | cut -c1-400
   echo "rc=${PIPESTATUS[0]}"
+  cp "build/evidence.$ID.keep" "evidence/$ID.json" 2>/dev/null   # the evidence file describes the unchanged tree
 done
 git -C /repo checkout -- .
 git -C /repo status --short | head -3
